@@ -117,8 +117,8 @@ def run(ctx):
     if not ok:
         ctx.broken("coq-build:C04/Check.vo", log[-2000:])
     hx = ctx.go_build("c04")
-    ngraphs = 250 if ctx.quick() else 4000
-    ncoq = 45 if ctx.quick() else 400          # graphs whose every probe is also evaluated inside Coq
+    ngraphs = 180 if ctx.quick() else 4000
+    ncoq = 36 if ctx.quick() else 400          # graphs whose every probe is also evaluated inside Coq
     recs = ctx.jsonl([hx, "-seed", str(ctx.seed), "-n", str(ngraphs)], timeout=840)
     graphs = [r for r in recs if r["kind"] == "graph"]
     nnested = len([r for r in recs if r["kind"] == "nested"])
